@@ -669,6 +669,12 @@ void Node::process_pending_fetches() {
             if (now >= state.next_attempt) {
                 note_dispatch_end(state);
                 state.in_flight = false;
+                // A request that was sent but never answered used up an attempt as well.
+                const auto attempt_cap = static_cast<std::size_t>(config_.fetch_retry_attempt_limit);
+                if (attempt_cap > 0 && state.attempts >= attempt_cap) {
+                    completed.push_back(key);
+                    continue;
+                }
             } else {
                 ++inflight_count;
                 continue;
